@@ -174,7 +174,8 @@ CONFIG = {
                  "stamps start / stop-seen / exit on a logical clock. Oracle: instances never overlap, exactly one running instance with an open stop channel while anybody holds it, stop closed only "
                  "after every outstanding done was called, a Do arriving while an instance stops waits for its exit and gets a fresh instance, every instance stopped once unheld, no goroutine left. "
                  "non-trivial = >=2 instances and (last done racing a new Do, or a Do while the instance is stopping); distinct = hash of the case."),
-        "jobs": [{"name": "worker", "test": "TestC17Worker", "steps": 30, "checks": {"quick": 16000, "thorough": 4000000}, "shards": {"quick": 8, "thorough": 16}, "env": {"VKIT_PROFILE": "C17"}}],
+        "jobs": [{"name": "worker_early", "test": "TestC17Early", "steps": 30, "checks": {"quick": 8000, "thorough": 800000}, "shards": {"quick": 4, "thorough": 16}},
+                 {"name": "worker", "test": "TestC17Worker", "steps": 30, "checks": {"quick": 16000, "thorough": 4000000}, "shards": {"quick": 8, "thorough": 16}, "env": {"VKIT_PROFILE": "C17"}}],
     },
     "C20": {
         "rule": ("(free) free-running programs in a bubble: a receiver whose pauses are whole or half multiples of the rate (its wake-ups tie with ticks, so receive and non-blocking send race on real processors while the virtual clock stands still), optional cancellation after a drawn number of receives; never more than count values, exactly count when never cancelled, non-decreasing virtual timestamps, at most two values after cancellation, producer gone. " + "rapid stepper over LinearAttempt in a synctest bubble (virtual time): count 1-6, rate in {1ns,1ms,1s}, context cancellable/deadline/Err-only/pre-cancelled/background, "
